@@ -38,7 +38,7 @@ def main():
     ap = argparse.ArgumentParser()
     ap.add_argument("--revert", action="append", default=[])
     ap.add_argument("--patch", action="append", default=[])
-    ap.add_argument("--sub", action="append", default=[], help="relpath:::old:::new (exactly one occurrence unless :::N given)")
+    ap.add_argument("--sub", action="append", default=[], help="relpath@@@old@@@new")
     ap.add_argument("--tier", default="quick")
     ap.add_argument("--keep", action="store_true")
     ap.add_argument("props", nargs="+")
@@ -58,7 +58,7 @@ def main():
                 print("could not apply", p)
                 return 3
         for sub in a.sub:
-            parts = sub.split(":::")
+            parts = sub.split("@@@")
             rel, old, new = parts[0], parts[1], parts[2]
             path = os.path.join(d, rel if "/" in rel else os.path.join("src/kneeliverse", rel))
             src = open(path).read()
